@@ -10,6 +10,7 @@ mod exec;
 mod text;
 mod helpers;
 mod api;
+mod xadd;
 
 use std::io::{BufRead, Write};
 
@@ -30,6 +31,7 @@ fn run_line(line: &str) -> String {
         "asm" | "dis" | "rt" => text::run(&toks),
         "helper" if toks.len() >= 2 => helpers::run(&toks),
         "api" => api::run(&toks),
+        "xadd" => xadd::run(&toks),
         "exec" => exec::run(&toks),
         _ => "bad-op".into(),
     }
@@ -64,6 +66,8 @@ fn main() {
                 "exec-engines" => exec::gen_engines(&mut w, thorough, seed),
                 "exec-accepted-engines" => exec::gen_accepted_engines(&mut w, thorough, seed),
                 "api" => api::gen(&mut w, thorough, seed),
+                "exec-clifprobe" => exec::gen_clifprobe(&mut w, thorough, seed),
+                "xadd" => xadd::gen(&mut w, thorough, seed),
                 "exec-long" => exec::gen_long(&mut w, thorough, seed),
                 _ => { eprintln!("unknown suite {suite}"); std::process::exit(2); }
             }
